@@ -35,11 +35,14 @@ CALLS = [
     ('sh_100',   'sportshall', "athlib.sportshall_score('100', '23.3')"),
     ('sh_slj_in', 'sportshall', "athlib.sportshall_score('SLJ', '2.07')"),      # inside the table: found by the search over the shared rows
     ('sh_100_in', 'sportshall', "athlib.sportshall_score('100', '15.5')"),
+    ('sh_shj',   'sportshall', "athlib.sportshall_score('SHJ', '0.45')"),        # the one column kept in another unit in the source table
     ('sh_unk',   'sportshall', "athlib.sportshall_score('XXX', '1')"),
     ('af_m100',  'wma', "athlib.wma_age_factor('M', 50, '100')"),
     ('af_f5k',   'wma', "athlib.wma_age_factor('F', 62, '5K')"),
     ('af_m7k',   'wma', "athlib.wma_age_factor('m', 47, '7K')"),
     ('af_fhj',   'wma', "athlib.wma_age_factor('f', 71, 'HJ')"),
+    ('af_m52h',  'wma', "athlib.wma_age_factor('M', 52.5, '5K')"),          # part-year ages: between two columns of the table
+    ('af_m70q',  'wma', "athlib.wma_age_factor('M', 70.25, '5K')"),
     ('wb_m5k',   'wma', "athlib.wma_world_best('m', '5K')"),
     ('wb_f7k',   'wma', "athlib.wma_world_best('f', '7K')"),
     ('gr_m5k',   'wma', "athlib.wma_age_grade('m', 50, '5K', '16:23')"),
@@ -80,8 +83,8 @@ CACHE_VARIANTS = ['first', 'c19', 'c20', 'c19+first', 'c18+all', 'warm']
 CORE_PAIRS = [
     ('as_m100', 'as_flj'), ('as_m100', 'as_m100'), ('as_flj', 'ap_m100'), ('ap_m100', 'ap_fhj'), ('as_age', 'as_unk'),
     ('hs_m100', 'hs_flj'), ('hs_m100', 'hs_m100'), ('hs_last', 'hs_unk'),
-    ('sh_slj', 'sh_100'), ('sh_slj', 'sh_unk'), ('sh_slj_in', 'sh_slj_in'), ('sh_100_in', 'sh_100_in'),
-    ('af_m100', 'af_f5k'), ('af_m100', 'af_m100'), ('af_m7k', 'af_fhj'), ('wb_m5k', 'wb_f7k'), ('wb_f7k', 'af_m7k'),
+    ('sh_slj', 'sh_100'), ('sh_slj', 'sh_unk'), ('sh_slj_in', 'sh_slj_in'), ('sh_100_in', 'sh_100_in'), ('sh_shj', 'sh_shj'), ('sh_shj', 'sh_slj_in'),
+    ('af_m100', 'af_f5k'), ('af_m100', 'af_m100'), ('af_m7k', 'af_fhj'), ('af_m52h', 'af_m70q'), ('af_m52h', 'af_m100'), ('wb_m5k', 'wb_f7k'), ('wb_f7k', 'af_m7k'),
     ('gr_m5k', 'gr_f7k'), ('gr_m5k', 'af_f5k'),
     ('af15_m100', 'af15_f5k'), ('gr15_m5k', 'af15_f5k'),
     ('aaf_m60h', 'aaf_flj'), ('aaf_m60h', 'aaf_m60h'), ('aag_m60h', 'aaf_flj'), ('aaf_young', 'aag_bad'),
@@ -543,7 +546,7 @@ THEOREMS = [P + t for t in (
     'AthlibVerif.Conc.runSched_inv', 'AthlibVerif.Access.noScratchReadBack_spec', 'AthlibVerif.Access.completedLocals_spec',
     'AthlibVerif.Access.noMutateOfPublished_spec', 'AthlibVerif.Access.lockedMutations_spec']
 # pairs that get every state variant in the quick tier too (one or two per group of shared state)
-QUICK_FULL = {('as_m100', 'as_flj'), ('hs_m100', 'hs_flj'), ('sh_slj', 'sh_100'), ('sh_slj_in', 'sh_slj_in'), ('sh_100_in', 'sh_100_in'), ('af_m100', 'af_f5k'), ('wb_m5k', 'wb_f7k'),
+QUICK_FULL = {('as_m100', 'as_flj'), ('hs_m100', 'hs_flj'), ('sh_slj', 'sh_100'), ('sh_slj_in', 'sh_slj_in'), ('sh_100_in', 'sh_100_in'), ('sh_shj', 'sh_shj'), ('af_m100', 'af_f5k'), ('wb_m5k', 'wb_f7k'),
               ('af15_m100', 'af15_f5k'), ('aaf_m60h', 'aaf_flj'), ('sv_meta', 'sv_perf'), ('vs_ath', 'vs_perf'), ('gr_m5k', 'af_f5k'),
               ('vs_bad_ef', 'vs_bad_ef')}
 
